@@ -59,6 +59,7 @@ impl C04 {
         };
         ctx.count("evaluations");
         ctx.count(&format!("{}:streams_cross_decoded", writer));
+        ctx.phase("verdict: current build reconstructs what the reference wrote");
         let mut rec = cur::reconstruct(&a.plain, &a.corr);
         if corrupt {
             if let Out::Ok(v) = &mut rec {
@@ -96,8 +97,12 @@ impl C04 {
 
     pub fn judge_stream(d: &[u8], label: &str, ctx: &mut Ctx, corrupt: bool) -> bool {
         ctx.item_bytes(label, d);
-        let b1 = Self::judge_stream_writer(d, "ref1", ref1::analyze(d, true), label, ctx, corrupt);
-        let b0 = Self::judge_stream_writer(d, "ref0", ref0::analyze(d, true), label, ctx, false);
+        ctx.phase("nonverdict: analysis by the frozen reference build ref1");
+        let w1 = ref1::analyze(d, true);
+        let b1 = Self::judge_stream_writer(d, "ref1", w1, label, ctx, corrupt);
+        ctx.phase("nonverdict: analysis by the frozen pinned build ref0 (has known defects)");
+        let w0 = ref0::analyze(d, true);
+        let b0 = Self::judge_stream_writer(d, "ref0", w0, label, ctx, false);
         b0 || b1
     }
 
@@ -109,7 +114,14 @@ impl C04 {
                 return false;
             }
         };
+        // a container the independent parser cannot walk (the pinned build writes such containers for
+        // inputs it mishandles) is not worth handing to any reader: its length fields are garbage
+        if crate::cparse::parse(&e).is_err() {
+            ctx.count(&format!("{}:file_not_accepted(container_malformed)", writer));
+            return false;
+        }
         // premise: the writer can read back its own container
+        ctx.phase("nonverdict: the reference build reads back its own container");
         match own(&e) {
             Out::Ok(v) if v[..] == f[..] => {}
             _ => {
@@ -119,6 +131,7 @@ impl C04 {
         }
         ctx.count("evaluations");
         ctx.count(&format!("{}:files_cross_decoded", writer));
+        ctx.phase("verdict: current build recreates the file from the reference's container");
         let rec = cur::recreate(&e);
         match &rec {
             Out::Ok(v) if v[..] == f[..] => {
@@ -152,8 +165,12 @@ impl C04 {
 
     pub fn judge_file_both(f: &[u8], label: &str, ctx: &mut Ctx) -> bool {
         ctx.item_bytes(label, f);
-        let b1 = Self::judge_file_writer(f, "ref1", ref1::expand(f), |e| ref1::recreate(e), label, ctx);
-        let b0 = Self::judge_file_writer(f, "ref0", ref0::expand(f), |e| ref0::recreate(e), label, ctx);
+        ctx.phase("nonverdict: expansion by the frozen reference build ref1");
+        let e1 = ref1::expand(f);
+        let b1 = Self::judge_file_writer(f, "ref1", e1, |e| ref1::recreate(e), label, ctx);
+        ctx.phase("nonverdict: expansion by the frozen pinned build ref0 (has known defects)");
+        let e0 = ref0::expand(f);
+        let b0 = Self::judge_file_writer(f, "ref0", e0, |e| ref0::recreate(e), label, ctx);
         if ctx.want_sample() {
             ctx.sample(json!({"file": hex_prefix(f, 32), "len": f.len(), "how": label}));
         }
